@@ -466,7 +466,9 @@ func (s *appState) op(d *driver, f []string) string {
 		}
 		return s.hw.control(f)
 	case "withoutmw":
-		return s.withoutMW(d, f[1:])
+		return s.withoutMW(d, f[1:], false)
+	case "withoutmwc":
+		return s.withoutMW(d, f[1:], true)
 	case "cmpstacks":
 		return s.cmpStacks(d, f[1:])
 	case "cb":
